@@ -80,6 +80,8 @@ def run_case(rng, tier, idx):
     cc = gen.build_shell(d)
     if imperfect:
         cc.c0 = np.array(d['imp']['c0']); cc.m0 = m0; cc.n0 = n0; cc.funcnum = d['imp']['funcnum']
+    for k_ in gen.shell_leftovers(rng, cc, d, prob=0.4):
+        c.tag('left:' + k_)
     # 35%: the linear stiffness comes from a twin object and the object under test is fresh when its internal force is first asked
     fresh = bool(rng.random() < 0.35)
     c.tag('order:fresh' if fresh else 'order:k0_first')
